@@ -48,7 +48,8 @@ EXPECTED_PROBES = ['honest_transfer_ok', 'one_byte_fragments', 'header_alone', '
                    'downloader_path', 'big_blob', 'tiny_blob', 'brace_blob', 'wire_headers_checked', 'wire_bodies_checked',
                    'hostile_server_fired', 'hostile_client_fired', 'liar_sent_right_bytes_verified', 'followup_honest_ok',
                    'server_closed_hostile', 'closed_by_idle_timeout', 'closed_immediately', 'request_ended_cancelled',
-                   'unknown_length_request', 'client_data_received_escape', 'server_data_received_escape', 'recovered_after_net_fault']
+                   'unknown_length_request', 'client_data_received_escape', 'server_data_received_escape', 'recovered_after_net_fault',
+                   'honest_transfer_longer_than_idle_timeout']
 
 MAX = 2 * 1024 * 1024
 SERVER_CATALOGUE = ['wrong_hash', 'length_short', 'length_long', 'length_zero', 'length_negative', 'length_huge', 'length_string',
@@ -97,6 +98,19 @@ def gen(run_seed, tier):
             # the client's response parser retries json.loads on every '}' of a chunk (quadratic wall-clock cost;
             # a performance matter outside this technique) - keep such blobs small so runs stay cheap
             b['n'] = min(b['n'], 20000)
+    if fam == 'honest' and r.random() < 0.12:
+        # slow but legitimate link: the transfer takes longer than the server's IDLE timeout yet stays well inside
+        # the transfer timeout and the client's download timeout - every timeout must be applied to its own phase
+        n_slow = r.choice([262144, 524288, 1024 * 1024, MAX])
+        blobs[:] = [{'n': n_slow, 'seed': r.getrandbits(32), 'kind': 'rand'}]
+        sc['blobs'] = blobs
+        sc['timeouts'] = {'connect': 3.0, 'download': 30.0, 'idle': 10.0, 'transfer': 60.0}
+        sc['net'].update(latency=[0.0005, 0.002], stall_prob=0.0, chunk_mode=r.choice(['whole', 'mixed']))
+        sc['exec_delay'] = round(2 * r.uniform(14.0, 19.0) / (n_slow // 16384 + 1), 4)
+        sc['slow'] = True
+        sc['ops'] = [{'op': 'client', 'id': 0, 'requests': [0], 'via': 'request_blob', 'know_length': r.random() < 0.5,
+                      'start': 0.0, 'gap': 0.0}]
+        return sc
     # the honest family must be feasible: a transfer has to fit well inside the download/transfer timeouts
     nmax = max(b['n'] for b in blobs)
     blocks = nmax // 16384 + 1
@@ -470,6 +484,8 @@ def execute(scenario, keep_trace=False):
                               jsonlike=scenario['blobs'][bi].get('kind') == 'response_like')
                 return
             run.probes['honest_transfer_ok'] += 1
+            if dur > T['idle']:
+                run.probes['honest_transfer_longer_than_idle_timeout'] += 1
         if downloader is not None:
             downloader.close()
         elif protocol is not None:
